@@ -372,7 +372,6 @@ func runControls(prop string, rp *Report) {
 	rp.Extra["negative_controls"] = map[string]int{"total": len(results), "fired": fired, "skipped": skipped}
 }
 
-
 // ---- canary ------------------------------------------------------------------------------
 
 func startCanary(prop string) chan controlResult {
